@@ -20,6 +20,7 @@ import (
 	"strings"
 
 	"github.com/mitchellh/copystructure"
+	"github.com/pkg/errors"
 
 	chart "helm.sh/helm/v4/pkg/chart/v2"
 )
@@ -243,8 +244,11 @@ func processImportValues(c *chart.Chart, merge bool) error {
 		for _, riv := range r.ImportValues {
 			switch iv := riv.(type) {
 			case map[string]interface{}:
-				child := iv["child"].(string)
-				parent := iv["parent"].(string)
+				child, cok := iv["child"].(string)
+				parent, pok := iv["parent"].(string)
+				if !cok || !pok {
+					return errors.Errorf("invalid import-values entry for dependency %q: child and parent must be strings", r.Name)
+				}
 
 				outiv = append(outiv, map[string]string{
 					"child":  child,
